@@ -37,239 +37,6 @@ Definition edit := (N * N * name)%type.
 Definition impl_rename (st : state) (d : N) (x new : name) : list edit :=
   map (fun q => (q, q + nlen x, new)) (nodupN (d :: decl_cells st d)).
 
-(** * (A) with ordinal identities *)
-
-Definition oenv := list (name * nat).
-
-Definition olookup (x : name) (r : oenv) : option nat :=
-  match find (fun b => fst b =? x) r with Some b => Some (snd b) | None => None end.
-
-(** bindings of a name list, the first name gets ordinal [k] *)
-Fixpoint obind (xs : list name) (k : nat) (r : oenv) : oenv :=
-  match xs with
-  | [] => r
-  | x :: t => obind t (S k) ((x, k) :: r)
-  end.
-
-Definition olen (xs : list name) : nat := List.length xs.
-
-(** resolutions of the uses in source order, and the next free ordinal *)
-Fixpoint ord_expr (r : oenv) (e : expr) (k : nat) : list (option nat) * nat :=
-  match e with
-  | ENum _ => ([], k)
-  | EName x => ([olookup x r], k)
-  | EIdx e1 _ => ord_expr r e1 k
-  | ECall f args =>
-      let '(l1, k1) := ord_expr r f k in
-      let '(l2, k2) := ord_exprs r args k1 in (l1 ++ l2, k2)
-  | EBin a b =>
-      let '(l1, k1) := ord_expr r a k in
-      let '(l2, k2) := ord_expr r b k1 in (l1 ++ l2, k2)
-  | EFun ps b =>
-      let '(l, _, k1) := ord_block (obind ps k r) b (k + olen ps)%nat in (l, k1)
-  end
-with ord_exprs (r : oenv) (es : exprs) (k : nat) : list (option nat) * nat :=
-  match es with
-  | ENil => ([], k)
-  | ECons e t =>
-      let '(l1, k1) := ord_expr r e k in
-      let '(l2, k2) := ord_exprs r t k1 in (l1 ++ l2, k2)
-  end
-(** a statement: resolutions, the environment after it, the next ordinal *)
-with ord_stat (r : oenv) (s : stat) (k : nat) : list (option nat) * oenv * nat :=
-  match s with
-  | SLocal xs es =>
-      let '(l, k1) := ord_exprs r es (k + olen xs)%nat in (l, obind xs k r, k1)
-  | SAssign vs es =>
-      let '(l1, k1) := ord_exprs r vs k in
-      let '(l2, k2) := ord_exprs r es k1 in (l1 ++ l2, r, k2)
-  | SCall f args =>
-      let '(l1, k1) := ord_expr r f k in
-      let '(l2, k2) := ord_exprs r args k1 in (l1 ++ l2, r, k2)
-  | SLocalFun f ps b =>
-      let r1 := (f, k) :: r in
-      let '(l, _, k1) := ord_block (obind ps (S k) r1) b (S k + olen ps)%nat in (l, r1, k1)
-  | SFun root fields meth ps b =>
-      (* the implicit self of a method is a declaration without a token: it takes an ordinal too *)
-      let '(r1, k0) := match meth with Some _ => ((self_name, k) :: r, S k) | None => (r, k) end in
-      let '(l, _, k1) := ord_block (obind ps k0 r1) b (k0 + olen ps)%nat in
-      (olookup root r :: l, r, k1)
-  | SDo b => let '(l, _, k1) := ord_block r b k in (l, r, k1)
-  | SWhile c b =>
-      let '(l1, k1) := ord_expr r c k in
-      let '(l2, _, k2) := ord_block r b k1 in (l1 ++ l2, r, k2)
-  | SRepeat b c =>
-      let '(l1, r1, k1) := ord_block r b k in
-      let '(l2, k2) := ord_expr r1 c k1 in (l1 ++ l2, r, k2)
-  | SIf c b els =>
-      let '(l1, k1) := ord_expr r c k in
-      let '(l2, _, k2) := ord_block r b k1 in
-      let '(l3, k3) := ord_elifs r els k2 in (l1 ++ l2 ++ l3, r, k3)
-  | SFor x es b =>
-      let '(l1, k1) := ord_exprs r es (S k) in
-      let '(l2, _, k2) := ord_block ((x, k) :: r) b k1 in (l1 ++ l2, r, k2)
-  | SForIn xs es b =>
-      let '(l1, k1) := ord_exprs r es (k + olen xs)%nat in
-      let '(l2, _, k2) := ord_block (obind xs k r) b k1 in (l1 ++ l2, r, k2)
-  end
-with ord_elifs (r : oenv) (els : elifs) (k : nat) : list (option nat) * nat :=
-  match els with
-  | ElEnd => ([], k)
-  | ElElse b => let '(l, _, k1) := ord_block r b k in (l, k1)
-  | ElIf c b t =>
-      let '(l1, k1) := ord_expr r c k in
-      let '(l2, _, k2) := ord_block r b k1 in
-      let '(l3, k3) := ord_elifs r t k2 in (l1 ++ l2 ++ l3, k3)
-  end
-with ord_block (r : oenv) (b : block) (k : nat) : list (option nat) * oenv * nat :=
-  match b with
-  | BNil => ([], r, k)
-  | BRet es => let '(l, k1) := ord_exprs r es k in (l, r, k1)
-  | BCons s t =>
-      let '(l1, r1, k1) := ord_stat r s k in
-      let '(l2, r2, k2) := ord_block r1 t k1 in (l1 ++ l2, r2, k2)
-  end.
-
-Definition ord_resolve (p : program) : list (option nat) := fst (fst (ord_block [] p 0%nat)).
-
-(** * alpha-renaming: the declaration with ordinal [d] and the uses (A) resolves to it get the name [y] *)
-
-Fixpoint al_names (d : nat) (y : name) (xs : list name) (k : nat) : list name :=
-  match xs with
-  | [] => []
-  | x :: t => (if Nat.eqb k d then y else x) :: al_names d y t (S k)
-  end.
-
-Definition al_use (d : nat) (y : name) (r : oenv) (x : name) : name :=
-  match olookup x r with
-  | Some i => if Nat.eqb i d then y else x
-  | None => x
-  end.
-
-(** the renamed construct and the next ordinal (the environment is the one of the ORIGINAL program) *)
-Fixpoint al_expr (d : nat) (y : name) (r : oenv) (e : expr) (k : nat) : expr * nat :=
-  match e with
-  | ENum n => (ENum n, k)
-  | EName x => (EName (al_use d y r x), k)
-  | EIdx e1 f => let '(e1', k1) := al_expr d y r e1 k in (EIdx e1' f, k1)
-  | ECall f args =>
-      let '(f', k1) := al_expr d y r f k in
-      let '(args', k2) := al_exprs d y r args k1 in (ECall f' args', k2)
-  | EBin a b =>
-      let '(a', k1) := al_expr d y r a k in
-      let '(b', k2) := al_expr d y r b k1 in (EBin a' b', k2)
-  | EFun ps b =>
-      let '(b', _, k1) := al_block d y (obind ps k r) b (k + olen ps)%nat in
-      (EFun (al_names d y ps k) b', k1)
-  end
-with al_exprs (d : nat) (y : name) (r : oenv) (es : exprs) (k : nat) : exprs * nat :=
-  match es with
-  | ENil => (ENil, k)
-  | ECons e t =>
-      let '(e', k1) := al_expr d y r e k in
-      let '(t', k2) := al_exprs d y r t k1 in (ECons e' t', k2)
-  end
-with al_stat (d : nat) (y : name) (r : oenv) (s : stat) (k : nat) : stat * oenv * nat :=
-  match s with
-  | SLocal xs es =>
-      let '(es', k1) := al_exprs d y r es (k + olen xs)%nat in
-      (SLocal (al_names d y xs k) es', obind xs k r, k1)
-  | SAssign vs es =>
-      let '(vs', k1) := al_exprs d y r vs k in
-      let '(es', k2) := al_exprs d y r es k1 in (SAssign vs' es', r, k2)
-  | SCall f args =>
-      let '(f', k1) := al_expr d y r f k in
-      let '(args', k2) := al_exprs d y r args k1 in (SCall f' args', r, k2)
-  | SLocalFun f ps b =>
-      let r1 := (f, k) :: r in
-      let '(b', _, k1) := al_block d y (obind ps (S k) r1) b (S k + olen ps)%nat in
-      (SLocalFun (if Nat.eqb k d then y else f) (al_names d y ps (S k)) b', r1, k1)
-  | SFun root fields meth ps b =>
-      let '(r1, k0) := match meth with Some _ => ((self_name, k) :: r, S k) | None => (r, k) end in
-      let '(b', _, k1) := al_block d y (obind ps k0 r1) b (k0 + olen ps)%nat in
-      (SFun (al_use d y r root) fields meth (al_names d y ps k0) b', r, k1)
-  | SDo b => let '(b', _, k1) := al_block d y r b k in (SDo b', r, k1)
-  | SWhile c b =>
-      let '(c', k1) := al_expr d y r c k in
-      let '(b', _, k2) := al_block d y r b k1 in (SWhile c' b', r, k2)
-  | SRepeat b c =>
-      let '(b', r1, k1) := al_block d y r b k in
-      let '(c', k2) := al_expr d y r1 c k1 in (SRepeat b' c', r, k2)
-  | SIf c b els =>
-      let '(c', k1) := al_expr d y r c k in
-      let '(b', _, k2) := al_block d y r b k1 in
-      let '(els', k3) := al_elifs d y r els k2 in (SIf c' b' els', r, k3)
-  | SFor x es b =>
-      let '(es', k1) := al_exprs d y r es (S k) in
-      let '(b', _, k2) := al_block d y ((x, k) :: r) b k1 in
-      (SFor (if Nat.eqb k d then y else x) es' b', r, k2)
-  | SForIn xs es b =>
-      let '(es', k1) := al_exprs d y r es (k + olen xs)%nat in
-      let '(b', _, k2) := al_block d y (obind xs k r) b k1 in
-      (SForIn (al_names d y xs k) es' b', r, k2)
-  end
-with al_elifs (d : nat) (y : name) (r : oenv) (els : elifs) (k : nat) : elifs * nat :=
-  match els with
-  | ElEnd => (ElEnd, k)
-  | ElElse b => let '(b', _, k1) := al_block d y r b k in (ElElse b', k1)
-  | ElIf c b t =>
-      let '(c', k1) := al_expr d y r c k in
-      let '(b', _, k2) := al_block d y r b k1 in
-      let '(t', k3) := al_elifs d y r t k2 in (ElIf c' b' t', k3)
-  end
-with al_block (d : nat) (y : name) (r : oenv) (b : block) (k : nat) : block * oenv * nat :=
-  match b with
-  | BNil => (BNil, r, k)
-  | BRet es => let '(es', k1) := al_exprs d y r es k in (BRet es', r, k1)
-  | BCons s t =>
-      let '(s', r1, k1) := al_stat d y r s k in
-      let '(t', r2, k2) := al_block d y r1 t k1 in (BCons s' t', r2, k2)
-  end.
-
-Definition alpha (d : nat) (y : name) (p : program) : program := fst (fst (al_block d y [] p 0%nat)).
-
-(** the variable names of a construct (declarations and uses; not fields, not method names) *)
-Fixpoint names_expr (e : expr) : list name :=
-  match e with
-  | ENum _ => []
-  | EName x => [x]
-  | EIdx e1 _ => names_expr e1
-  | ECall f args => names_expr f ++ names_exprs args
-  | EBin a b => names_expr a ++ names_expr b
-  | EFun ps b => ps ++ names_block b
-  end
-with names_exprs (es : exprs) : list name :=
-  match es with ENil => [] | ECons e t => names_expr e ++ names_exprs t end
-with names_stat (s : stat) : list name :=
-  match s with
-  | SLocal xs es => xs ++ names_exprs es
-  | SAssign vs es => names_exprs vs ++ names_exprs es
-  | SCall f args => names_expr f ++ names_exprs args
-  | SLocalFun f ps b => f :: ps ++ names_block b
-  | SFun root _ _ ps b => root :: ps ++ names_block b
-  | SDo b => names_block b
-  | SWhile c b => names_expr c ++ names_block b
-  | SRepeat b c => names_block b ++ names_expr c
-  | SIf c b els => names_expr c ++ names_block b ++ names_elifs els
-  | SFor x es b => x :: names_exprs es ++ names_block b
-  | SForIn xs es b => xs ++ names_exprs es ++ names_block b
-  end
-with names_elifs (els : elifs) : list name :=
-  match els with
-  | ElEnd => []
-  | ElElse b => names_block b
-  | ElIf c b t => names_expr c ++ names_block b ++ names_elifs t
-  end
-with names_block (b : block) : list name :=
-  match b with
-  | BNil => []
-  | BRet es => names_exprs es
-  | BCons s t => names_stat s ++ names_block t
-  end.
-
-(** [y] is fresh for the program: no variable is called [y] (and it is not the implicit [self]) *)
-Definition fresh (y : name) (p : program) : Prop := ~ In y (names_block p) /\ y <> self_name.
-
 (** * which ordinals are implicit selfs (declarations without a token: they cannot be renamed) *)
 Definition falses (xs : list name) : list bool := map (fun _ => false) xs.
 
@@ -312,6 +79,211 @@ with dk_block (b : block) : list bool :=
 
 (** [d] is the ordinal of a declaration that has a token (a local, a parameter, a loop variable, a local function) *)
 Definition real_decl (p : program) (d : nat) : Prop := nth_error (dk_block p) d = Some false.
+
+(** * (A) with ordinal identities
+
+    Declarations are numbered in source order (the implicit self of a method takes a number too); [cnt_x] is the
+    number of declarations inside a construct, so the ordinal of every declaration is known without threading. *)
+
+Definition oenv := list (name * nat).
+
+Definition olookup (x : name) (r : oenv) : option nat :=
+  match find (fun b => fst b =? x) r with Some b => Some (snd b) | None => None end.
+
+(** bindings of a name list, the first name gets ordinal [k] *)
+Fixpoint obind (xs : list name) (k : nat) (r : oenv) : oenv :=
+  match xs with
+  | [] => r
+  | x :: t => obind t (S k) ((x, k) :: r)
+  end.
+
+Definition olen (xs : list name) : nat := List.length xs.
+
+Definition cnt_expr (e : expr) : nat := List.length (dk_expr e).
+Definition cnt_exprs (es : exprs) : nat := List.length (dk_exprs es).
+Definition cnt_stat (s : stat) : nat := List.length (dk_stat s).
+Definition cnt_elifs (els : elifs) : nat := List.length (dk_elifs els).
+Definition cnt_block (b : block) : nat := List.length (dk_block b).
+
+(** the environment after a statement / at the end of a block whose first declaration has ordinal [k] *)
+Definition env_after (r : oenv) (s : stat) (k : nat) : oenv :=
+  match s with
+  | SLocal xs _ => obind xs k r
+  | SLocalFun f _ _ => (f, k) :: r
+  | _ => r
+  end.
+
+Fixpoint benv_after (r : oenv) (b : block) (k : nat) : oenv :=
+  match b with
+  | BNil | BRet _ => r
+  | BCons s t => benv_after (env_after r s k) t (k + cnt_stat s)%nat
+  end.
+
+(** environment and first ordinal of the body of a function statement (the implicit self of a method first) *)
+Definition meth_env (meth : option name) (r : oenv) (k : nat) : oenv :=
+  match meth with Some _ => (self_name, k) :: r | None => r end.
+Definition meth_cnt (meth : option name) : nat := match meth with Some _ => 1%nat | None => 0%nat end.
+
+(** resolutions of the uses in source order; [k] is the ordinal of the first declaration of the construct *)
+Fixpoint ord_expr (r : oenv) (e : expr) (k : nat) : list (option nat) :=
+  match e with
+  | ENum _ => []
+  | EName x => [olookup x r]
+  | EIdx e1 _ => ord_expr r e1 k
+  | ECall f args => ord_expr r f k ++ ord_exprs r args (k + cnt_expr f)%nat
+  | EBin a b => ord_expr r a k ++ ord_expr r b (k + cnt_expr a)%nat
+  | EFun ps b => ord_block (obind ps k r) b (k + olen ps)%nat
+  end
+with ord_exprs (r : oenv) (es : exprs) (k : nat) : list (option nat) :=
+  match es with
+  | ENil => []
+  | ECons e t => ord_expr r e k ++ ord_exprs r t (k + cnt_expr e)%nat
+  end
+with ord_stat (r : oenv) (s : stat) (k : nat) : list (option nat) :=
+  match s with
+  | SLocal xs es => ord_exprs r es (k + olen xs)%nat
+  | SAssign vs es => ord_exprs r vs k ++ ord_exprs r es (k + cnt_exprs vs)%nat
+  | SCall f args => ord_expr r f k ++ ord_exprs r args (k + cnt_expr f)%nat
+  | SLocalFun f ps b => ord_block (obind ps (S k) ((f, k) :: r)) b (S k + olen ps)%nat
+  | SFun root fields meth ps b =>
+      olookup root r
+      :: ord_block (obind ps (k + meth_cnt meth)%nat (meth_env meth r k)) b (k + meth_cnt meth + olen ps)%nat
+  | SDo b => ord_block r b k
+  | SWhile c b => ord_expr r c k ++ ord_block r b (k + cnt_expr c)%nat
+  | SRepeat b c => ord_block r b k ++ ord_expr (benv_after r b k) c (k + cnt_block b)%nat
+  | SIf c b els =>
+      ord_expr r c k ++ ord_block r b (k + cnt_expr c)%nat ++ ord_elifs r els (k + cnt_expr c + cnt_block b)%nat
+  | SFor x es b => ord_exprs r es (S k) ++ ord_block ((x, k) :: r) b (S k + cnt_exprs es)%nat
+  | SForIn xs es b =>
+      ord_exprs r es (k + olen xs)%nat ++ ord_block (obind xs k r) b (k + olen xs + cnt_exprs es)%nat
+  end
+with ord_elifs (r : oenv) (els : elifs) (k : nat) : list (option nat) :=
+  match els with
+  | ElEnd => []
+  | ElElse b => ord_block r b k
+  | ElIf c b t =>
+      ord_expr r c k ++ ord_block r b (k + cnt_expr c)%nat ++ ord_elifs r t (k + cnt_expr c + cnt_block b)%nat
+  end
+with ord_block (r : oenv) (b : block) (k : nat) : list (option nat) :=
+  match b with
+  | BNil => []
+  | BRet es => ord_exprs r es k
+  | BCons s t => ord_stat r s k ++ ord_block (env_after r s k) t (k + cnt_stat s)%nat
+  end.
+
+Definition ord_resolve (p : program) : list (option nat) := ord_block [] p 0%nat.
+
+(** * alpha-renaming: the declaration with ordinal [d] and the uses (A) resolves to it get the name [y] *)
+
+Fixpoint al_names (d : nat) (y : name) (xs : list name) (k : nat) : list name :=
+  match xs with
+  | [] => []
+  | x :: t => (if Nat.eqb k d then y else x) :: al_names d y t (S k)
+  end.
+
+Definition al_use (d : nat) (y : name) (r : oenv) (x : name) : name :=
+  match olookup x r with
+  | Some i => if Nat.eqb i d then y else x
+  | None => x
+  end.
+
+(** the renamed construct ([r] is the environment of the ORIGINAL program) *)
+Fixpoint al_expr (d : nat) (y : name) (r : oenv) (e : expr) (k : nat) : expr :=
+  match e with
+  | ENum n => ENum n
+  | EName x => EName (al_use d y r x)
+  | EIdx e1 f => EIdx (al_expr d y r e1 k) f
+  | ECall f args => ECall (al_expr d y r f k) (al_exprs d y r args (k + cnt_expr f)%nat)
+  | EBin a b => EBin (al_expr d y r a k) (al_expr d y r b (k + cnt_expr a)%nat)
+  | EFun ps b => EFun (al_names d y ps k) (al_block d y (obind ps k r) b (k + olen ps)%nat)
+  end
+with al_exprs (d : nat) (y : name) (r : oenv) (es : exprs) (k : nat) : exprs :=
+  match es with
+  | ENil => ENil
+  | ECons e t => ECons (al_expr d y r e k) (al_exprs d y r t (k + cnt_expr e)%nat)
+  end
+with al_stat (d : nat) (y : name) (r : oenv) (s : stat) (k : nat) : stat :=
+  match s with
+  | SLocal xs es => SLocal (al_names d y xs k) (al_exprs d y r es (k + olen xs)%nat)
+  | SAssign vs es => SAssign (al_exprs d y r vs k) (al_exprs d y r es (k + cnt_exprs vs)%nat)
+  | SCall f args => SCall (al_expr d y r f k) (al_exprs d y r args (k + cnt_expr f)%nat)
+  | SLocalFun f ps b =>
+      SLocalFun (if Nat.eqb k d then y else f) (al_names d y ps (S k))
+                (al_block d y (obind ps (S k) ((f, k) :: r)) b (S k + olen ps)%nat)
+  | SFun root fields meth ps b =>
+      SFun (al_use d y r root) fields meth (al_names d y ps (k + meth_cnt meth)%nat)
+           (al_block d y (obind ps (k + meth_cnt meth)%nat (meth_env meth r k)) b (k + meth_cnt meth + olen ps)%nat)
+  | SDo b => SDo (al_block d y r b k)
+  | SWhile c b => SWhile (al_expr d y r c k) (al_block d y r b (k + cnt_expr c)%nat)
+  | SRepeat b c => SRepeat (al_block d y r b k) (al_expr d y (benv_after r b k) c (k + cnt_block b)%nat)
+  | SIf c b els =>
+      SIf (al_expr d y r c k) (al_block d y r b (k + cnt_expr c)%nat)
+          (al_elifs d y r els (k + cnt_expr c + cnt_block b)%nat)
+  | SFor x es b =>
+      SFor (if Nat.eqb k d then y else x) (al_exprs d y r es (S k))
+           (al_block d y ((x, k) :: r) b (S k + cnt_exprs es)%nat)
+  | SForIn xs es b =>
+      SForIn (al_names d y xs k) (al_exprs d y r es (k + olen xs)%nat)
+             (al_block d y (obind xs k r) b (k + olen xs + cnt_exprs es)%nat)
+  end
+with al_elifs (d : nat) (y : name) (r : oenv) (els : elifs) (k : nat) : elifs :=
+  match els with
+  | ElEnd => ElEnd
+  | ElElse b => ElElse (al_block d y r b k)
+  | ElIf c b t =>
+      ElIf (al_expr d y r c k) (al_block d y r b (k + cnt_expr c)%nat)
+           (al_elifs d y r t (k + cnt_expr c + cnt_block b)%nat)
+  end
+with al_block (d : nat) (y : name) (r : oenv) (b : block) (k : nat) : block :=
+  match b with
+  | BNil => BNil
+  | BRet es => BRet (al_exprs d y r es k)
+  | BCons s t => BCons (al_stat d y r s k) (al_block d y (env_after r s k) t (k + cnt_stat s)%nat)
+  end.
+
+Definition alpha (d : nat) (y : name) (p : program) : program := al_block d y [] p 0%nat.
+
+(** the variable names of a construct (declarations and uses; not fields, not method names) *)
+Fixpoint names_expr (e : expr) : list name :=
+  match e with
+  | ENum _ => []
+  | EName x => [x]
+  | EIdx e1 _ => names_expr e1
+  | ECall f args => names_expr f ++ names_exprs args
+  | EBin a b => names_expr a ++ names_expr b
+  | EFun ps b => ps ++ names_block b
+  end
+with names_exprs (es : exprs) : list name :=
+  match es with ENil => [] | ECons e t => names_expr e ++ names_exprs t end
+with names_stat (s : stat) : list name :=
+  match s with
+  | SLocal xs es => xs ++ names_exprs es
+  | SAssign vs es => names_exprs vs ++ names_exprs es
+  | SCall f args => names_expr f ++ names_exprs args
+  | SLocalFun f ps b => f :: ps ++ names_block b
+  | SFun root _ _ ps b => root :: ps ++ names_block b
+  | SDo b => names_block b
+  | SWhile c b => names_expr c ++ names_block b
+  | SRepeat b c => names_block b ++ names_expr c
+  | SIf c b els => names_expr c ++ names_block b ++ names_elifs els
+  | SFor x es b => x :: names_exprs es ++ names_block b
+  | SForIn xs es b => xs ++ names_exprs es ++ names_block b
+  end
+with names_elifs (els : elifs) : list name :=
+  match els with
+  | ElEnd => []
+  | ElElse b => names_block b
+  | ElIf c b t => names_expr c ++ names_block b ++ names_elifs t
+  end
+with names_block (b : block) : list name :=
+  match b with
+  | BNil => []
+  | BRet es => names_exprs es
+  | BCons s t => names_stat s ++ names_block t
+  end.
+
+(** [y] is fresh for the program: no variable is called [y] (and it is not the implicit [self]) *)
+Definition fresh (y : name) (p : program) : Prop := ~ In y (names_block p) /\ y <> self_name.
 
 (** * the positions of the declarations in source order (the implicit self of a method at its colon) *)
 Fixpoint names_pos (xs : list name) (o : N) : list N :=
